@@ -584,7 +584,9 @@ Commit(p, byval, dt) ==
        THEN /\ UNCHANGED <<grp, commits, det>>
             /\ Record(act, p, args, "err:" \o ar.err, [x |-> 0])
        ELSE
-         LET withPath == opt.pathReq \/ PathNeeded(ar.applied)
+         \* "newid": every third commit of a behaviour also changes the committer's signing key (same identity,
+         \* CommitBuilder::set_new_signing_identity); the key lives in the committer's leaf, so the commit carries a path
+         LET withPath == opt.pathReq \/ PathNeeded(ar.applied) \/ ("newid" \in Features /\ n % 3 = 0)
              priv0 == ProvisionalPriv(g, ar.tree, ar.applied)
              addedLeaves == {a[2] : a \in SeqSet(ar.added)}
              pathKeys == IF withPath THEN EncapKeys(n, ar.tree, g.leaf) ELSE <<>>
